@@ -44,6 +44,23 @@ theorem c31_total_order_ties {a b : Nat} (ha : a < 2 ^ 32) (hb : b < 2 ^ 32)
 /-- The IEEE order is coarser than the total order. -/
 theorem c31_numeric_coarser (a b : Item) (h : a.key ≤ b.key) : a.nkey ≤ b.nkey := nkey_mono h
 
+/-- `f32::total_cmp` exactly as std's source computes it: both bit patterns go through the
+xor trick (`stdKey`) and are compared as `i32`. -/
+def stdTotalCmp (a b : BitVec 32) : Ordering := compare (stdKey a) (stdKey b)
+
+/-- **`tkey` is `f32::total_cmp`.** For all 2^32 × 2^32 bit patterns, std's formula
+(`left ^= (((left >> 31) as u32) >> 1) as i32; left.cmp(&right)`) orders two floats exactly
+as the model's integer key does; indeed the xor trick *is* `tkey` (`stdKey_eq_tkey`, by case
+split on the sign bit and arithmetic on the 31 low bits — no enumeration). -/
+theorem c31_tkey_is_total_cmp (a b : BitVec 32) :
+    stdTotalCmp a b = compare (tkey a.toNat) (tkey b.toNat) := by
+  unfold stdTotalCmp
+  rw [stdKey_eq_tkey, stdKey_eq_tkey]
+
+/-- Sanity of the modelled formula on concrete patterns: −NaN, −0, +0, 1.0, +NaN. -/
+example : [0xffc00000#32, 0x80000000#32, 0#32, 0x3f800000#32, 0x7fc00000#32].map stdKey
+    = [-2143289345, -1, 0, 1065353216, 2143289344] := by decide
+
 /-- Spot checks of the keys (−NaN < −inf < −1 < −0 < +0 < min-subnormal < 1 < +inf < +NaN). -/
 example : [0xffc00000, 0xff800000, 0xbf800000, 0x80000000, 0, 1, 0x3f800000, 0x7f800000, 0x7fc00000].map tkey
     = [-2143289345, -2139095041, -1065353217, -1, 0, 1, 1065353216, 2139095040, 2143289344] := by decide
